@@ -42,12 +42,14 @@ var guardedBy = []guardSpec{
 
 func runC15(c *core.Ctx) {
 	runFixtures(c, "locks")
-	c.Explain("Linearizability, race freedom in general and deadlock freedom over interleavings are NOT decidable by a sound static argument available here (no pointer analysis, no scheduler model); the race detector and systematic schedule enumeration are other technique families. Two necessary conditions are decided: (R15.1) a guarded-by table (14 lines, each confirmed by reading): the blob's byte slice is touched through a receiver only with the blob mutex held; mirrored/handed-out counters and published flags only through sync/atomic; the serial transaction's result map only under its mutex; the lazily loaded record fields are written only inside the matching sync.Once.Do closure and read only after that Do has returned in the same function (or after the atomic published flag was seen). A shared blob touched without its guard IS a data race. (R15.2) check-then-act in one transaction: each mutating operation of the key-value FS issues the look-ups its decision depends on and the resulting Set on the same Transaction value — otherwise two goroutines can both pass the check (two Mkdir of one name both return nil, which no sequential order produces); (R15.3) in every method of the slice-backed blob the comparisons that justify a slice of the mutex-guarded buffer read its length while the mutex is held, in the critical section that slices — a bounds check made before locking lets a concurrent Truncate through another handle turn the guarded index into a panic; an unlocked pre-check that is repeated under the lock is accepted (no dispatch under the blob lock is R19.4, checked under C19); (R15.4) the in-memory store's transaction constructor holds the store mutex at every successful return — a read-only transaction that skips it sees a rename half done; (R15.5) an operation of the key-value FS that writes more than one record (Rename of a file: new name and old name) issues all its writes on one Transaction value, so no other goroutine's transaction can run between them. The property itself is not claimed.")
+	c.Explain("Linearizability, race freedom in general and deadlock freedom over interleavings are NOT decidable by a sound static argument available here (no pointer analysis, no scheduler model); the race detector and systematic schedule enumeration are other technique families. Two necessary conditions are decided: (R15.1) a guarded-by table (14 lines, each confirmed by reading): the blob's byte slice is touched through a receiver only with the blob mutex held; mirrored/handed-out counters and published flags only through sync/atomic; the serial transaction's result map only under its mutex; the lazily loaded record fields are written only inside the matching sync.Once.Do closure and read only after that Do has returned in the same function (or after the atomic published flag was seen). A shared blob touched without its guard IS a data race. (R15.2) check-then-act in one transaction: each mutating operation of the key-value FS issues the look-ups its decision depends on and the resulting Set on the same Transaction value — otherwise two goroutines can both pass the check (two Mkdir of one name both return nil, which no sequential order produces); (R15.3) in every method of the slice-backed blob the comparisons that justify a slice of the mutex-guarded buffer read its length while the mutex is held, in the critical section that slices — a bounds check made before locking lets a concurrent Truncate through another handle turn the guarded index into a panic; an unlocked pre-check that is repeated under the lock is accepted (no dispatch under the blob lock is R19.4, checked under C19); (R15.4) the in-memory store's transaction constructor holds the store mutex at every successful return — a read-only transaction that skips it sees a rename half done; (R15.5) an operation of the key-value FS that writes more than one record (Rename of a file: new name and old name) issues all its writes on one Transaction value, so no other goroutine's transaction can run between them; (R15.6) every plain map field of a struct that owns a mutex (mem, keyvalue, tar, mount, cache, pathlock) is accessed only with that mutex held, constructors excepted; (R15.7) no method of keyvalue.FS stores into a field of the FS value (no lock protects it and all goroutines share it). The property itself is not claimed.")
 	c.Assume("lock identity by access path; single receiver per method (no aliasing of two blobs in one method other than fresh results)")
 	c.RuleDoc("R15.1", "guarded-by table")
 	c.RuleDoc("R15.2", "check-then-act within one transaction")
 	c.RuleDoc("R15.4", "every transaction of the in-memory store holds the store mutex")
 	c.RuleDoc("R15.5", "the records of one multi-record update are written on one transaction")
+	c.RuleDoc("R15.6", "plain map fields of mutex-owning structs are accessed only with the mutex held")
+	c.RuleDoc("R15.7", "methods of the key-value FS keep no per-call state in the shared FS value")
 	c.RuleDoc("R15.3", "blob bounds are checked inside the critical section that slices the buffer")
 	for _, p := range c.Progs {
 		c.SetProg(p)
@@ -61,6 +63,8 @@ func runC15(c *core.Ctx) {
 			}
 		}
 		r15OneTransaction(c, p)
+		r15MapsUnderMutex(c, p, "mem", "keyvalue", "tar", "mount", "cache", "internal/pathlock")
+		r15StatelessFS(c, p)
 		if blobI := ifaceOf(p, "keyvalue/blob", "Blob"); blobI != nil {
 			for _, n := range implementers(p, blobI) {
 				if sh := discoverBlobShape(p, n); sh != nil && sh.dataField != "" {
@@ -74,6 +78,7 @@ func runC15(c *core.Ctx) {
 	c.Floor("R15.3", 3)
 	c.Floor("R15.4", 1)
 	c.Floor("R15.5", 1)
+	c.Floor("R15.7", 15)
 }
 
 func r15Guard(c *core.Ctx, p *load.Program, g guardSpec) {
@@ -569,4 +574,129 @@ func movePairs(sh *kvShape, fn *ssa.Function) []movePair {
 		}
 	}
 	return out
+}
+
+// r15MapsUnderMutex (R15.6): in a struct that owns a sync.Mutex, every access to a plain (non-sync) map field happens
+// with that mutex held (must-lockset), constructors excepted. A map read while another goroutine writes it is a fatal
+// "concurrent map iteration and map write", whatever the paths involved.
+func r15MapsUnderMutex(c *core.Ctx, p *load.Program, pkgs ...string) {
+	for _, rel := range pkgs {
+		pk := p.Pkg(rel)
+		if pk == nil {
+			continue
+		}
+		for _, name := range pk.Types.Scope().Names() {
+			tn, ok := pk.Types.Scope().Lookup(name).(*types.TypeName)
+			if !ok {
+				continue
+			}
+			named, ok := tn.Type().(*types.Named)
+			if !ok {
+				continue
+			}
+			st, ok := named.Underlying().(*types.Struct)
+			if !ok {
+				continue
+			}
+			mu := ""
+			var maps []string
+			for i := 0; i < st.NumFields(); i++ {
+				f := st.Field(i)
+				ts := f.Type().String()
+				if ts == "sync.Mutex" || ts == "sync.RWMutex" || ts == "*sync.Mutex" || ts == "*sync.RWMutex" {
+					mu = f.Name()
+				}
+				if _, isMap := f.Type().Underlying().(*types.Map); isMap {
+					maps = append(maps, f.Name())
+				}
+			}
+			if mu == "" || len(maps) == 0 {
+				continue
+			}
+			for _, mf := range maps {
+				key := typeKey(named) + "." + mf + "|map-under-" + mu
+				var bad []string
+				n := 0
+				for _, fn := range p.SrcFuncs() {
+					if constructs(fn, named) {
+						continue
+					}
+					var ls map[ssa.Instruction]ssax.LockSet
+					ssax.Instrs(fn, func(ins ssa.Instruction) {
+						u, ok := ins.(*ssa.UnOp)
+						if !ok || u.Op != token.MUL {
+							return
+						}
+						fa, ok := u.X.(*ssa.FieldAddr)
+						if !ok || ssax.FieldName(fa) != mf {
+							return
+						}
+						if sn := ssax.StructOfFieldAddr(fa); sn == nil || !types.Identical(sn, named) {
+							return
+						}
+						n++
+						if ls == nil {
+							ls = ssax.Locksets(fn, true, nil)
+						}
+						held := false
+						for k := range ls[ins] {
+							if strings.HasSuffix(k, "."+mu) {
+								held = true
+							}
+						}
+						if !held {
+							bad = append(bad, fname(fn)+" at "+p.Pos(u.Pos()))
+						}
+					})
+				}
+				c.Check(len(bad) == 0, "R15.6", key, p.Pos(tn.Pos()), fmt.Sprintf("%d accesses, all with %s held", n, mu),
+					fmt.Sprintf("%s.%s is a plain map in a struct that owns %s, but it is read or written without the mutex held: %s — one goroutine iterating while another writes is a fatal runtime error (and a data race)", typeKey(named), mf, mu, strings.Join(bad, "; ")))
+			}
+		}
+	}
+}
+
+// r15StatelessFS (R15.7): methods of the key-value FS write no field of the FS value: it is shared by every goroutine
+// using the file system and has no lock of its own, so any per-call scratch state kept in it (a reused slice…) is
+// shared between concurrent calls on unrelated paths.
+func r15StatelessFS(c *core.Ctx, p *load.Program) {
+	n := p.Named("keyvalue", "FS")
+	if n == nil {
+		c.Hard("anchor: keyvalue.FS")
+		return
+	}
+	ms := methodsOf(p, n)
+	var names []string
+	for k := range ms {
+		names = append(names, k)
+	}
+	sort.Strings(names)
+	for _, mn := range names {
+		fn := ms[mn]
+		if fn.Blocks == nil {
+			continue
+		}
+		recv := recvParam(fn)
+		key := "keyvalue.FS." + mn + "|writes-no-field"
+		bad := ""
+		ssax.InstrsDeep(fn, func(f *ssa.Function, ins ssa.Instruction) {
+			st, ok := ins.(*ssa.Store)
+			if !ok {
+				return
+			}
+			fa, ok := st.Addr.(*ssa.FieldAddr)
+			if !ok {
+				return
+			}
+			base := fa.X
+			if fv, ok := base.(*ssa.FreeVar); ok {
+				base = ssax.ResolveFreeVar(fv)
+			}
+			if base == ssa.Value(recv) {
+				bad = ssax.FieldName(fa) + " at " + p.Pos(st.Pos())
+			}
+		})
+		c.Check(bad == "", "R15.7", key, p.Pos(fn.Pos()), "the method stores into no field of the shared FS value",
+			fmt.Sprintf("%s stores into the field %s of the FS value, which all goroutines share and no lock protects: two concurrent calls (even on unrelated paths) overwrite each other's state", fname(fn), bad))
+	}
 }
